@@ -4,12 +4,36 @@
 #include "vhrt.h"
 #include "vh_dump.h"
 #include "json.h"
+#include "linkhash.h"
 #include <math.h>
 #include <stdint.h>
 #include <stdlib.h>
 #include <string.h>
 
 static const char *keys[] = {"a", "b", "c", "", "k\x01", "zz", "a b"};
+/* names whose home slot, under this process's hash seed, is one of the last two of a 16-slot table: their probe
+ * sequences run into the end of the table and wrap round to slot 0 */
+static char wrapkeys[10][12];
+static int nwrap;
+static void find_wrapkeys(void)
+{
+	json_object *o = json_object_new_object();
+	struct lh_table *t = json_object_get_object(o);
+	for (int c = 0; c < 100000 && nwrap < 10; c++)
+	{
+		char cand[12];
+		snprintf(cand, sizeof cand, "w%d", c);
+		if (lh_get_hash(t, cand) % 16 >= 14)
+			strcpy(wrapkeys[nwrap++], cand);
+	}
+	json_object_put(o);
+}
+static const char *pick_key(void)
+{
+	if (nwrap && vh_below(3) == 0)
+		return wrapkeys[vh_below((uint32_t)nwrap)];
+	return keys[vh_below(7)];
+}
 static json_object *gen(int depth)
 {
 	uint32_t r = vh_below(depth <= 0 ? 9 : 13);
@@ -57,7 +81,7 @@ static json_object *gen(int depth)
 		json_object *o = json_object_new_object();
 		int n = (int)vh_below(4);
 		for (int i = 0; i < n; i++)
-			json_object_object_add(o, keys[vh_below(7)], gen(depth - 1));
+			json_object_object_add(o, pick_key(), gen(depth - 1));
 		return o;
 	}
 	}
@@ -268,6 +292,50 @@ json_object *c09_twin_h(json_object *o)
 			snprintf(jk, sizeof jk, "junk%d", i);
 			json_object_object_del(n, jk);
 		}
+		if (vh_below(2))
+		{
+			/* a random program of adds and deletes over a small pool of other names (slots reused, tombstones coming and
+			 * going, the newest entry deleted again and again), then every real member stored once more under its own
+			 * name: a replacement in place - unless the table has lost track of it */
+			int usewrap = nwrap && vh_below(2);
+			for (int i = 0; i < 60; i++)
+			{
+				if (usewrap)
+					snprintf(jk, sizeof jk, "%s", wrapkeys[vh_below((uint32_t)nwrap)]);
+				else
+					snprintf(jk, sizeof jk, "p%u", vh_below(10));
+				int real = 0;
+				for (int q = 0; q < c; q++)
+					if (!strcmp(ks[q], jk))
+						real = 1;
+				if (real)
+					continue;
+				if (vh_below(2))
+					json_object_object_add(n, jk, json_object_new_int(i));
+				else
+					json_object_object_del(n, jk);
+			}
+			for (int i = 0; i < 10; i++)
+			{
+				snprintf(jk, sizeof jk, "p%d", i);
+				json_object_object_del(n, jk);
+			}
+			for (int i = 0; i < nwrap; i++)
+			{
+				int real = 0;
+				for (int q = 0; q < c; q++)
+					if (!strcmp(ks[q], wrapkeys[i]))
+						real = 1;
+				if (!real)
+					json_object_object_del(n, wrapkeys[i]);
+			}
+			for (int i = 0; i < c; i++)
+			{
+				json_object *cur = NULL;
+				if (json_object_object_get_ex(n, ks[i], &cur))
+					json_object_object_add(n, ks[i], json_object_get(cur));
+			}
+		}
 		if (how == 1 && c > 0)
 		{
 			/* delete one real member and add it again */
@@ -424,6 +492,7 @@ static int drive(int start, int nexec)
 	const char *seed = getenv("VERIF_SEED");
 	uint64_t s0 = seed ? strtoull(seed, 0, 10) : 1;
 	dump_bits = 1;
+	find_wrapkeys();
 	for (int x = start; x < nexec; x++)
 	{
 		vh_srand(s0 * 1000003ull + (uint64_t)x);
